@@ -166,7 +166,7 @@ fn trees<T: Chunky<Item = (f64, f64)>>(tname: &'static str, with_error: bool, al
         alpha_name: alpha.into(),
         alpha: pair_alphabet(alpha),
         max_len,
-        cap_per_word: 4_000,
+        cap_per_word: word_cap(),
         judge: mk_judge::<T>(tname, with_error, cache, board),
         extra: Box::new(move || json!({"worst_error_over_envelope": b2.dump()})),
     })
